@@ -729,6 +729,18 @@ def run_cases(chk, cases, procs=4):
     return impls, results
 
 
+def oracle_first(cases, impls, results):
+    """reporting order: cases whose statement-level oracle fails (concrete input) before cases where only model and implementation
+    disagree, so that the cap on reported violations never hides a concrete input behind a model-correspondence line"""
+    def rank(i):
+        pr = results[i] or []
+        if any(not sg.startswith("model-correspondence-") and sg != "impl-exception" for sg, _ in pr):
+            return 0
+        return 1 if pr else 2
+    order = sorted(range(len(cases)), key=rank)
+    return [(cases[i], impls[i], results[i]) for i in order]
+
+
 def main():
     chk = Check("C11", groups=["shapes"])
     chk.build_props()
@@ -749,7 +761,7 @@ def main():
                       "correspondence": "torch_layers.create_mlp vs Model.Shapes.mlp_layers"}, found_input=bool(oracle_bad))
     hist = {"mlp_structures": n_mlp, "pk_net_arch": {}, "algo": {}, "obs": {}, "act": {}, "scale": {}, "trials": 0, "trial_kinds": {}, "rejected_inputs": 0, "squash": 0}
     distinct = set()
-    for c, im, probs in zip(cases, impls, results):
+    for c, im, probs in oracle_first(cases, impls, results):
         for k in ("algo", "obs", "act", "scale"):
             hist[k][str(c[k])] = hist[k].get(str(c[k]), 0) + 1
         na = (c.get("pk") or {}).get("net_arch", "8")
